@@ -1008,7 +1008,13 @@ fn cases(entry: Entry) -> BoxedStrategy<Case> {
 		}
 		Entry::TarFile => {
 			let seed = (small_spec(gen::all_pairs()), any::<u32>()).prop_map(|(spec, seed)| codec::tar::encode(&spec.materialise(), &vt::sources::layout_tar(seed)));
-			prop_oneof![10 => text_case(seed.boxed(), "tar"), 1 => random].boxed()
+			// archives built member by member: generated names (as for directories) and contents
+			let content = prop_oneof![3 => proptest::collection::vec(any::<u8>(), 0..40), 1 => json_text(), 1 => tilejson_text().prop_map(|t| util::gzip(&t))];
+			let members = (proptest::collection::vec((dir_names(), content), 0..8), any::<bool>(), any::<bool>()).prop_map(move |(files, dot, dirs)| {
+				let m: Vec<(String, Vec<u8>)> = files.into_iter().map(|(n, c)| (if dot { format!("./{n}") } else { n }, c)).collect();
+				Case { entry, data: vt::server::tar_archive(&m, dirs), files: vec![], origin: "tar-members".into() }
+			});
+			prop_oneof![10 => text_case(seed.boxed(), "tar"), 3 => members.boxed(), 1 => random].boxed()
 		}
 		Entry::MbtilesFile => {
 			// valid files with odd but legal SQL content (format strings, NULLs, huge numbers) + byte mutations
@@ -1042,17 +1048,25 @@ fn cases(entry: Entry) -> BoxedStrategy<Case> {
 			prop_oneof![10 => text_case(seed.boxed(), "mbtiles"), 1 => random].boxed()
 		}
 		Entry::Dir => {
-			let names = prop_oneof![
-				4 => (0u8..34, any::<u32>(), any::<u32>(), prop_oneof![Just(".png"), Just(".pbf"), Just(".pbf.gz"), Just(".jpg.br"), Just(".json"), Just(""), Just(".PNG"), Just(".png.gz.br")]).prop_map(|(z, x, y, e)| format!("{z}/{x}/{y}{e}")),
-				1 => ("[0-9a-z+-]{1,4}", "[0-9a-z+-]{1,12}", "[0-9a-z.+-]{1,14}").prop_map(|(a, b, c)| format!("{a}/{b}/{c}")),
-				1 => prop_oneof![Just("tiles.json"), Just("meta.json.gz"), Just("metadata.json.br"), Just("tiles.json.br"), Just("README"), Just("3/readme.txt"), Just("3/4/x.png"), Just("3/99999999999/1.png"), Just("300/1/1.png"), Just("ä/1/1.png")].prop_map(|s| s.to_string()),
-			];
+			let names = dir_names();
 			let content = prop_oneof![3 => proptest::collection::vec(any::<u8>(), 0..40), 1 => json_text(), 1 => tilejson_text().prop_map(|t| util::gzip(&t)), 1 => tilejson_text().prop_map(|t| util::brotli_c(&t))];
 			proptest::collection::vec((names, content), 0..8).prop_map(move |files| Case { entry, data: vec![], files, origin: "dir".into() }).boxed()
 		}
 	}
 }
 
+
+/// relative member names of a tile directory / tar archive, well-formed and not
+fn dir_names() -> BoxedStrategy<String> {
+	prop_oneof![
+				4 => (0u8..34, any::<u32>(), any::<u32>(), prop_oneof![Just(".png"), Just(".pbf"), Just(".pbf.gz"), Just(".jpg.br"), Just(".json"), Just(""), Just(".PNG"), Just(".png.gz.br")]).prop_map(|(z, x, y, e)| format!("{z}/{x}/{y}{e}")),
+				1 => ("[0-9a-z+-]{1,4}", "[0-9a-z+-]{1,12}", "[0-9a-z.+-]{1,14}").prop_map(|(a, b, c)| format!("{a}/{b}/{c}")),
+				// stray members with multi-byte characters at every distance from the end of the name
+				2 => (0u8..6, 0u32..9, "[0-9a-z.äß€日𝄞]{1,9}").prop_map(|(z, x, n)| format!("{z}/{x}/{n}")),
+				1 => prop_oneof![Just("tiles.json"), Just("meta.json.gz"), Just("metadata.json.br"), Just("tiles.json.br"), Just("README"), Just("3/readme.txt"), Just("3/4/x.png"), Just("3/99999999999/1.png"), Just("300/1/1.png"), Just("ä/1/1.png")].prop_map(|s| s.to_string()),
+			]
+	.boxed()
+}
 
 // ---------------------------------------------------------------------------------------
 // coverage-guided stage (thorough tier): libFuzzer via cargo-fuzz on the in-memory decoders
